@@ -296,7 +296,7 @@ def xtext(rng):
 
 
 def gen_cases(engine, rng, tier):
-    k = 1 if tier == 'quick' else 25
+    k = 3 if tier == 'quick' else 60
     out = ['d0']
     for _ in range(500 * k):
         out.append('d1 ' + R.hx(domain(rng)))
